@@ -11,6 +11,7 @@ import (
 	"strings"
 	"sync"
 	"testing"
+	"time"
 
 	"github.com/KafScale/platform/pkg/metadata"
 	"github.com/KafScale/platform/pkg/storage"
@@ -66,25 +67,94 @@ func (c *c06Crash) dead() bool { c.mu.Lock(); defer c.mu.Unlock(); return c.cras
 type c06S3 struct {
 	inner *vfS3
 	c     *c06Crash
+	// The segment and the index of one flush are uploaded by two goroutines. Which of the
+	// two reaches S3 first decides what a crash or a failed upload leaves behind, so the
+	// harness owns that order: both uploads of a flush meet here, then they are carried out
+	// one after the other, index first iff idxFirst. If the first one fails, the second is
+	// not sent (the cancellation of the flush reached it before it went out); the other
+	// combination of outcomes is the same S3 state with the order swapped.
+	idxFirst bool
+	mu       sync.Mutex
+	pairs    map[string]*c06Pair
+	broken   string
 }
 
-func (s *c06S3) put(kind string, f func() error) error {
+type c06Pair struct {
+	n           int
+	both        chan struct{}
+	firstDone   chan struct{}
+	firstFailed bool
+	done        int
+}
+
+func (s *c06S3) put(kind, key string, f func() error) error {
+	stem := strings.TrimSuffix(strings.TrimSuffix(key, ".kfs"), ".index")
+	s.mu.Lock()
+	if s.pairs == nil {
+		s.pairs = map[string]*c06Pair{}
+	}
+	pr := s.pairs[stem]
+	if pr == nil {
+		pr = &c06Pair{both: make(chan struct{}), firstDone: make(chan struct{})}
+		s.pairs[stem] = pr
+	}
+	pr.n++
+	if pr.n == 2 {
+		close(pr.both)
+	}
+	s.mu.Unlock()
+	select {
+	case <-pr.both:
+	case <-time.After(10 * time.Second):
+		s.mu.Lock()
+		s.broken = "harness: the sibling upload of " + key + " never arrived"
+		s.mu.Unlock()
+	}
+	first := (kind == "put-index") == s.idxFirst
+	skip := false
+	if !first {
+		select {
+		case <-pr.firstDone:
+		case <-time.After(10 * time.Second):
+		}
+		s.mu.Lock()
+		skip = pr.firstFailed
+		s.mu.Unlock()
+	}
+	finish := func(failed bool) {
+		s.mu.Lock()
+		if first {
+			pr.firstFailed = failed
+			close(pr.firstDone)
+		}
+		pr.done++
+		if pr.done == 2 {
+			delete(s.pairs, stem)
+		}
+		s.mu.Unlock()
+	}
+	if skip {
+		finish(true)
+		return context.Canceled
+	}
 	do, fail := s.c.step(kind)
 	if do {
 		if err := f(); err != nil && !fail {
+			finish(true)
 			return err
 		}
 	}
+	finish(fail)
 	if fail {
 		return errC06Dead
 	}
 	return nil
 }
 func (s *c06S3) UploadSegment(ctx context.Context, key string, body []byte) error {
-	return s.put("put-segment", func() error { return s.inner.UploadSegment(ctx, key, body) })
+	return s.put("put-segment", key, func() error { return s.inner.UploadSegment(context.WithoutCancel(ctx), key, body) })
 }
 func (s *c06S3) UploadIndex(ctx context.Context, key string, body []byte) error {
-	return s.put("put-index", func() error { return s.inner.UploadIndex(ctx, key, body) })
+	return s.put("put-index", key, func() error { return s.inner.UploadIndex(context.WithoutCancel(ctx), key, body) })
 }
 func (s *c06S3) DeleteSegment(ctx context.Context, key string) error {
 	if s.c.dead() {
@@ -166,6 +236,8 @@ type c06Plan struct {
 	// RestartFaults: after every restart the first N S3 read/list calls fail (transient
 	// outage while the partition is being re-opened); the probe retries.
 	RestartFaults int
+	// IdxFirst: the index upload of every flush reaches S3 before the segment upload
+	IdxFirst bool
 }
 
 func c06DrawPlan(t *rapid.T) c06Plan {
@@ -189,6 +261,7 @@ func c06DrawPlan(t *rapid.T) c06Plan {
 	p.SegFaults = rapid.SliceOfN(fk, 0, 6).Draw(t, "segfaults")
 	p.IdxFaults = rapid.SliceOfN(fk, 0, 6).Draw(t, "idxfaults")
 	p.RestartFaults = rapid.SampledFrom([]int{0, 0, 1, 2, 3}).Draw(t, "restartfaults")
+	p.IdxFirst = rapid.Bool().Draw(t, "idxfirst")
 	return p
 }
 
@@ -252,9 +325,21 @@ func c06Run(p c06Plan, targetKind string, target int, after bool) (out c06Outcom
 	crash := &c06Crash{targetKind: targetKind, target: target, after: after}
 	base := vfStoreWithTopics(map[string]int32{topic: 1})
 	store := &c06Store{Store: base, c: crash}
+	var wrappers []*c06S3
+	defer func() {
+		for _, w := range wrappers {
+			w.mu.Lock()
+			if w.broken != "" {
+				out.Violations = append(out.Violations, w.broken)
+			}
+			w.mu.Unlock()
+		}
+	}()
 	mkHandler := func() *handler {
 		h := vfNewHandler(store, obj, vfHandlerOpts{SegmentBytes: p.SegBytes, ReadAhead: 0, NoS3Backpressure: true})
-		h.s3 = &c06S3{inner: &vfS3{o: obj}, c: crash}
+		w := &c06S3{inner: &vfS3{o: obj}, c: crash, idxFirst: p.IdxFirst}
+		wrappers = append(wrappers, w)
+		h.s3 = w
 		return h
 	}
 	h := mkHandler()
